@@ -88,7 +88,7 @@ def run_case(case, cid):
             warnings.simplefilter("ignore")
             if case["op"] == "subvalue":
                 values = {l: v for l, v in case["vals"]}
-                res = model.subvalue(values) if case["method"] else utils.subvalue(values, model)
+                res = pure.twice(lambda: model.subvalue(values) if case["method"] else utils.subvalue(values, model))
             elif case["op"] == "subsym":
                 syms = {l: sympy.Symbol("s%d" % i) for i, (l, v) in enumerate(case["vals"])}
                 sub = model.subvalue(dict(syms)) if case["method"] else utils.subvalue(dict(syms), model)
@@ -101,13 +101,13 @@ def run_case(case, cid):
             elif case["op"] == "subgraph":
                 conn = None if case.get("conn_none") else {l: v for l, v in case["vals"]}
                 nodes = set(case["nodes"])
-                res = model.subgraph(nodes, conn) if case["method"] else utils.subgraph(model, nodes, conn)
+                res = pure.twice(lambda: model.subgraph(nodes, conn) if case["method"] else utils.subgraph(model, nodes, conn))
             else:
                 if case["method"]:
                     res = copy.deepcopy(model)
                     res.normalize(case["norm_value"])
                 else:
-                    res = utils.normalize(model, case["norm_value"])
+                    res = pure.twice(lambda: utils.normalize(model, case["norm_value"]))
         rterms = pure.items_of(res)
         extra = [common.frac(case.get("norm_value", 1))]
         den = common.common_den([common.frac(v) for _, v in terms] + [common.frac(v) for _, v in rterms] + extra)
